@@ -3,17 +3,42 @@ import PsutilModel.Base.Proto
 import PsutilModel.Model.C07Gen
 import PsutilModel.Spec.C07
 import PsutilModel.Spec.C07Ext
+import Std.Data.HashMap
 open Lean Psutil Psutil.Proto Psutil.C07
 
+/-- the calls made so far, filed by (function, variant, thread): `Spec.expected` of a call looks at the
+    calls of its own key only (`C07_own_history_only`), so the driver hands it that sub-history — a history
+    with thousands of threads is then answered in time proportional to the caller's own calls -/
+abbrev HistBy := Std.HashMap Nat (List Call)
+
+def famIdx (f : Fam) : Nat := (match f.fn with | .percent => 0 | .timesPercent => 2) + (if f.percpu then 1 else 0)
+
+def histKey (c : Call) : Nat := c.tid * 4 + famIdx c.fam
+
+def HistBy.of (h : HistBy) (c : Call) : List Call := (h.get? (histKey c)).getD []
+
+def HistBy.add (h : HistBy) (c : Call) : HistBy := h.insert (histKey c) (h.of c ++ [c])
+
+/-- `sample e` with the results remembered for the reads of the calls at hand (the five readings of the
+    specification — rounded, exact, totals, lengths, thread-keyed — parse the same snapshots): the same function,
+    evaluated once per snapshot -/
+def memoRd (e : Env) (tab : List ((Bool × Bytes) × Thunk (PRes Stored))) (pc : Bool) (r : Bytes) : PRes Stored :=
+  match tab.find? (fun p => p.1.1 == pc && p.1.2 == r) with
+  | some p => p.2.get
+  | none => sample e pc r
+
+def memoTab (e : Env) (cs : List Call) : List ((Bool × Bytes) × Thunk (PRes Stored)) :=
+  cs.flatMap fun c => c.reads.map fun r => ((c.percpu, r), Thunk.mk fun _ => sample e c.percpu r)
+
 structure DSt where
-  st : St
+  cst : CSt             -- the four dictionaries as containers (Model: `cstep`, retention `cfg.storeBound`)
   pst : PSt
-  hist : List Call      -- chronological, filed under the identifier (`tid`)
+  hist : HistBy         -- chronological per key, filed under the identifier (`tid`)
   phist : List PCall
-  histT : List Call     -- the same calls filed under the calling THREAD (`thr`, default = `tid`)
+  histT : HistBy        -- the same calls filed under the calling THREAD (`thr`, default = `tid`)
   imp : Option (Tid × Bytes × Bytes)   -- importing thread and the two import-time reads
 
-def DSt.init : DSt := ⟨St.init, PSt.init, [], [], [], none⟩
+def DSt.init : DSt := ⟨CSt.init, PSt.init, {}, [], {}, none⟩
 
 def asRat (j : Json) : R Rat :=
   match j.getArr? with
@@ -179,7 +204,7 @@ def handle (d : DSt) (j : Json) : R (DSt × Json) := do
     let nf := e.fields.length
     let snf := Spec.nfOf vlen
     let c : Call := ⟨.percent, 1, none, true, [d1, d2]⟩
-    let out := (step e St.init c).2
+    let out := (cstep e CSt.init c).2
     let tm (w : Spec.ProcStatL) := w.cpus.map fun p => (p.1, Spec.Times.ofTicks tck p.2)
     let byPos := Spec.perCpuPercent snf ((tm w1).map Prod.snd) ((tm w2).map Prod.snd)
     let byNum := Spec.perCpuByNumber snf (tm w1) (tm w2)
@@ -210,11 +235,11 @@ def handle (d : DSt) (j : Json) : R (DSt × Json) := do
     match reads with
     | [r0, r1] =>
       let e : Env := ⟨cfg, vlen, tck⟩
-      let s := importState e tid r0 r1
+      let s := cimportState e tid r0 r1
       let has (f : Fam) (t : Tid) (st : Fam → Tid → Option Stored) : Json := Json.bool (st f t).isSome
       let fams : List Fam := [⟨.percent, false⟩, ⟨.percent, true⟩, ⟨.timesPercent, false⟩, ⟨.timesPercent, true⟩]
-      return ({ DSt.init with st := s, imp := some (tid, r0, r1) },
-        jObj [("model", jList (fun f => has f tid s) fams),
+      return ({ DSt.init with cst := s, imp := some (tid, r0, r1) },
+        jObj [("model", jList (fun f => has f tid s.view) fams),
               ("spec", jList (fun f => has f tid (Spec.importSample (sample e) tid r0 r1)) fams)])
     | _ => .error "import needs exactly two reads"
   if op == "call" then
@@ -229,21 +254,27 @@ def handle (d : DSt) (j : Json) : R (DSt × Json) := do
     let e : Env := ⟨cfg, vlen, tck⟩
     let c : Call := ⟨fn, tid, interval, percpu, reads⟩
     let cT : Call := ⟨fn, thr.getD tid, interval, percpu, reads⟩
-    let (s', out) := step e d.st c
+    -- the model over the CONTAINER the code files the samples in (`cfg.storeBound`: builtin dicts keep everything)
+    let (s', out) := cstep e d.cst c
     let snf := Spec.nfOf vlen
+    let hOwn := d.hist.of c         -- the caller's own earlier calls through this function/variant (C07_own_history_only)
+    let hOwnT := d.histT.of cT
+    let rd := memoRd e (memoTab e (c :: hOwn ++ (if thr.isSome then hOwnT else [])))
     let sp (m : Mode) : Out :=
       match d.imp with
-      | none => Spec.expected (sample e) (specCmp snf m) d.hist c
-      | some (t0, r0, r1) => Spec.expectedSinceImport (sample e) (specCmp snf m) t0 r0 r1 d.hist c
+      | none => Spec.expected rd (specCmp snf m) hOwn c
+      | some (t0, r0, r1) => Spec.expectedSinceImport rd (specCmp snf m) t0 r0 r1 hOwn c
     -- the same call measured against the calling THREAD's own previous sample (differs from
     -- "spec" only when two threads of the history share an identifier)
     let spT : Out :=
       match d.imp with
-      | none => Spec.expected (sample e) (specCmp snf .rounded) d.histT cT
-      | some (t0, r0, r1) => Spec.expectedSinceImport (sample e) (specCmp snf .rounded) t0 r0 r1 d.histT cT
-    return ({ d with st := s', hist := d.hist ++ [c], histT := d.histT ++ [cT] },
+      | none => Spec.expected rd (specCmp snf .rounded) hOwnT cT
+      | some (t0, r0, r1) => Spec.expectedSinceImport rd (specCmp snf .rounded) t0 r0 r1 hOwnT cT
+    -- how many threads have a sample filed in the caller's dictionary after the call (the population)
+    let pop := (s'.dict (slot cfg c.fam)).length
+    return ({ d with cst := s', hist := d.hist.add c, histT := d.histT.add cT },
       jObj [("model", jOut out), ("spec", jOut (sp .rounded)), ("exact", jOut (sp .exact)),
-            ("total", jOut (sp .total)), ("lens", jOut (sp .lens)), ("thread", jOut spT)])
+            ("total", jOut (sp .total)), ("lens", jOut (sp .lens)), ("thread", jOut spT), ("pop", jNat pop)])
   if op == "pcall" then
     let tck ← natF j "tck"
     let obj ← natF j "obj"
